@@ -1,7 +1,7 @@
 #!/usr/bin/env python3
 """Confirms a seeded change and runs the property's check against it.
 
-usage: seedtest.py <seed-dir> <name> [--props C01,C05] [--tier quick]
+usage: seedtest.py <seed-dir> <name> [--props C01,C05] [--tier quick] [--scratch]
 
 <seed-dir> holds patch.diff, demo_test.go, meta.json (property). Steps:
  1. in a scratch worktree of /repo: apply the patch, build, run the full test suite (must equal the
@@ -18,6 +18,11 @@ BASE_FAIL = {"TestDoNotDeliverToActor", "TestDoNotDeliverBlockToObject"}
 
 def run(cmd, cwd=None, timeout=1800):
     p = subprocess.run(cmd, cwd=cwd, env=ENV, capture_output=True, text=True, timeout=timeout)
+    return p.returncode, p.stdout + p.stderr
+
+
+def subprocess_run_env(cmd, env):
+    p = subprocess.run(cmd, cwd="/verif", env=env, capture_output=True, text=True, timeout=7200)
     return p.returncode, p.stdout + p.stderr
 
 
@@ -90,22 +95,43 @@ def main():
     if not ok:
         print("SEED REJECTED", name)
         sys.exit(3)
-    # 2. run the checks against /repo with the change
-    rc, out = run(["git", "-C", "/repo", "status", "--porcelain", "--untracked-files=no"])
-    assert out.strip() == "", "/repo has uncommitted changes: " + out
+    # 2. run the checks against /repo with the change (or, with --scratch, against a second scratch
+    #    worktree given with -repo, so that several seeds can be evaluated side by side)
     results = {}
-    rc, out = run(["git", "-C", "/repo", "apply", patch])
-    assert rc == 0, out
+    scratch = "--scratch" in sys.argv
+    extra, env2 = [], ENV
+    if scratch:
+        wt2 = tempfile.mkdtemp(prefix="seedwt2-")
+        os.rmdir(wt2)
+        rc, out = run(["git", "-C", "/repo", "worktree", "add", "-q", "--detach", wt2, "HEAD"])
+        assert rc == 0, out
+        if os.path.exists("/repo/go.sum"):
+            shutil.copy("/repo/go.sum", wt2)
+        rc, out = run(["git", "-C", wt2, "apply", patch])
+        assert rc == 0, out
+        outdir = tempfile.mkdtemp(prefix="seed-out-")
+        extra = ["-repo", wt2, "-workers", "8"]
+        env2 = dict(ENV, VERIF_OUT=outdir)
+    else:
+        rc, out = run(["git", "-C", "/repo", "status", "--porcelain", "--untracked-files=no"])
+        assert out.strip() == "", "/repo has uncommitted changes: " + out
+        rc, out = run(["git", "-C", "/repo", "apply", patch])
+        assert rc == 0, out
     try:
         for p in props:
             t0 = time.time()
-            rc, out = run(["/verif/bin/gosx", "check", "-prop", p, "-tier", tier], cwd="/verif", timeout=7200)
+            rc, out = subprocess_run_env(["/verif/bin/gosx", "check", "-prop", p, "-tier", tier] + extra, env2)
             vio = [l for l in out.splitlines() if l.startswith("VIOLATION")]
             detail = [l.strip()[:300] for l in out.splitlines() if l.startswith("  vp") or l.startswith("  static")]
             results[p] = {"exit": rc, "violations": len(vio), "first": detail[:5], "summary": out.strip().splitlines()[-1][:300], "wall_s": round(time.time() - t0, 1)}
-            ran.append("gosx check -prop %s -tier %s against /repo with the change: exit %d, %d VIOLATION lines" % (p, tier, rc, len(vio)))
+            ran.append("gosx check -prop %s -tier %s against %s with the change: exit %d, %d VIOLATION lines" % (p, tier, "a scratch worktree (-repo)" if scratch else "/repo", rc, len(vio)))
     finally:
-        run(["git", "-C", "/repo", "checkout", "--", "."])
+        if scratch:
+            run(["git", "-C", "/repo", "worktree", "remove", "--force", wt2])
+            shutil.rmtree(wt2, ignore_errors=True)
+            shutil.rmtree(outdir, ignore_errors=True)
+        else:
+            run(["git", "-C", "/repo", "checkout", "--", "."])
     # restore evidence of the unchanged tree for the touched properties is the caller's job (runall)
     # 3. store
     dst = os.path.join("/verif/seeded", name)
